@@ -1,20 +1,11 @@
 import ExaModel.Driver.Reload
+import ExaModel.Driver.Loop
 open Exa.Driver
 
-/- The line loop of this driver flushes after every answer: the harness talks to it interactively
-   (what it asks next depends on the state the model reports). -/
-partial def reloadLoop (h out : IO.FS.Stream) (st : Exa.Reload.World) : IO Unit := do
-  let line ← h.getLine
-  if line.isEmpty then return ()
-  let (st', o) :=
-    match words (line.trimAscii.toString) with
+/- The harness talks to this driver interactively (what it asks next depends on the state the model
+   reports); the shared line loop flushes after every answer. -/
+def main : IO Unit :=
+  runDriver Exa.Reload.World.init (fun st line =>
+    match words line with
     | "reload" :: ws => Exa.Driver.Reload.reloadLine st ws
-    | _ => (st, "bad-op")
-  out.putStrLn o
-  out.flush
-  reloadLoop h out st'
-
-def main : IO Unit := do
-  let stdin ← IO.getStdin
-  let stdout ← IO.getStdout
-  reloadLoop stdin stdout Exa.Reload.World.init
+    | _ => (st, "bad-op"))
